@@ -53,6 +53,10 @@ SUMMARY = {
 'c17q':'contiguous NFA caches its last failure-chain transition in an AtomicU64 keyed by (state, class) but not by the anchored flag: an anchored overlapping search after an unanchored one follows a failure transition',
 'c17r':'replace_all_bytes builds its output in a thread-local scratch Vec that is shrunk (not cleared) when it grew beyond 64 KiB: the next replace_all on that thread is prefixed with the previous output',
 'c17s':'AhoCorasick remembers in an AtomicBool that the start-kind consistency check once succeeded and skips it afterwards: a later search in the unsupported anchored mode returns Ok instead of Err',
+'c07t':'capacity clamped to [64 KiB, 1 MiB]: with a pattern >= 1 MiB the buffer has no spare room after the first roll (shipped capacity only)',
+'c08t':'capacity = max(min.next_power_of_two(), 64 KiB): a longest pattern of exactly 65536 / 131072 ... bytes leaves no spare room',
+'c17t':'shared prefilter effectiveness tracker turns the prefilter permanently inert after 50 match-dense calls: earliest(true) on a leftmost searcher with the packed prefilter then answers differently',
+'c18t':'ErrorKind::Interrupted from the reader is retried inside fill and never reported (first tolerated by the check; see section 10.2)',
 'c18a':'fill returns Ok(true) instead of the error when it had already buffered bytes in the same call: one-shot read errors during the initial fill vanish',
 'c18b':'closure errors of kind Interrupted are retried by calling the closure again: error swallowed, partial output duplicated',
 'c18c':'fill commits its new end only after the loop: an error on a later read of one fill discards bytes accepted earlier; polling on shifts all later offsets',
@@ -70,6 +74,10 @@ for line in sorted(open(os.path.join(ROOT, 'mutants/RESULTS-seeded.txt'))):
     m = re.search(r'\| (C\d\d) exit=(\d) class=(\S+) replay_exit=(\S+)', line)
     if not m: continue
     engine = {'C07': 'streamsim', 'C08': 'streamsim', 'C18': 'streamsim fault enumeration', 'C17': 'threadsim'}[m.group(1)]
+    if name == 'c07t':
+        engine = 'streamsim production-capacity class (after adding 128 KiB - 2 MiB patterns; first missed)'
+    if name == 'c18t':
+        engine = 'streamsim fault enumeration (after removing the EINTR-retry tolerance; first missed by design)'
     if name == 'c17m':
         engine = 'threadsim (after adding packed-prefilter-friendly leftmost searchers and a probe suffix to every history; first missed in quick, found at 10x scale)'
     if name == 'c17k':
